@@ -66,11 +66,12 @@ def items_for(tier, seed):
 def run(tier: str = "quick", seed: int = 0) -> dict:
     items = items_for(tier, seed)
     results = H.run_items("C07", items)
-    bound = ("per statement kind every sequence of 0..4 statements over 3 names / 4 symbols + 5..6 over 2 names (alone up to length 3, "
-             "all kinds combined in one text up to the full length, 2 layouts); photos flags 0..6; "
+    full, two, alone, ph = ("0..4", "5..6", "3", "0..6") if tier == "quick" else ("0..5", "6..8", "5 (+6..8)", "0..9")
+    bound = (f"per statement kind every sequence of {full} statements over 3 names / 4 symbols + {two} over 2 names (alone up to length {alone}, "
+             f"all kinds combined in one text up to the full length, 2 layouts); photos flags {ph}; "
              "all kinds x all rotations (fwd/rev) around 3 blocks; 48 names x every slot; 17 literal forms x every numeric slot; "
              "width-less Particle x 8 alias situations x 12 particles"
-             + ("; thorough: 0..5 (+6..8 over 2 names), photos 0..9, 200 seeded orders, 3000 random texts, shipped files" if tier == "thorough" else ""))
+             + ("; + 200 seeded orders, 3000 seeded random texts, shipped files" if tier == "thorough" else ""))
     entry = H.summarise("C07", "C07.parse.globals_equal_reader", FUNCTION, bound, RULE, results, exhaustive=True)
     entry["samples"] = H.samples_of(items)
     return {"bounded": [entry], "obligations": []}
